@@ -23,6 +23,16 @@ CLAIMS = {
         "note": "picosvg normalize/affine_between assumed (uninterpreted); OT-SVG <use> creation bounded-tier only.",
         "design_ref": "DESIGN.md section 4 C19",
     },
+    "C10": {
+        "text": "Partial. Discharged for all inputs: flag > file > default precedence of _pop_flag (int, str and None-default options), config.validate's rejection conditions. Bounded (native execution of the real functions on generated inputs, stated bounds): config write->load field-for-field, flag precedence end to end, glyph-map CSV rows, file-name -> codepoints, glyph names legal and distinct, feature rules, parts JSON, response files. Known findings K7 (toml strings), K8 (leading blank in a path), F6 (g_ prefix collision) are excluded by their witness classes and re-executed on every run.",
+        "note": "toml, csv, regex, json, shlex, hashlib are dependencies; string-level functions are outside the proved subset (bounded tier only).",
+        "design_ref": "DESIGN.md section 4 C10",
+    },
+    "C13": {
+        "text": "Partial. Discharged for all inputs: every transform paint's gettransform equals the COLR specification's affine; font->viewBox map is the inverse of the C01 placement; _apply_transform conjugates by the font->viewBox map and resets the transform; palette entry -> colour (foreground -> currentColor, CPAL alpha x paint alpha, index kept iff multi-palette, out of range raises); uniform/residual split of radial gradients. Bounded: generated COLRv1 fonts converted by colr_to_svg and compared by sampling against a COLR evaluator.",
+        "note": "lxml document assembly, SVGPathPen and fontTools glyph drawing are bounded-tier only; trigonometric functions uninterpreted; SVG renderer semantics assumed as implemented in contracts/e2e.py.",
+        "design_ref": "DESIGN.md section 4 C13",
+    },
     "C14": {
         "text": "ppem, pixel advance, horizontal centring, vertical placement within one pixel (two when nudged; for em <= 2*upem), the int8 nudge, format-17 record size and the contiguous offset table (loop invariant) are discharged for all inputs from the current source.",
         "note": "A-real; precondition bitmap height == bitmap_resolution (what the driver's resvg step produces); em > 2*upem is only covered by the general clause; fontTools CBDT/sbix writers and PIL's PNG size are assumed.",
